@@ -1967,8 +1967,13 @@ CWRAPPER_OUTPUT_TYPE basic_as_numer_denom(basic numer, basic denom,
                                           const basic x)
 {
     CWRAPPER_BEGIN
-    SymEngine::as_numer_denom(basic_rcp(x), SymEngine::outArg(basic_rcp(numer)),
-                              SymEngine::outArg(basic_rcp(denom)));
+    // numer or denom may be the same handle as x: keep x alive and assign
+    // the outputs only after the core function has finished reading it
+    SymEngine::RCP<const Basic> x_ = basic_rcp(x), numer_, denom_;
+    SymEngine::as_numer_denom(x_, SymEngine::outArg(numer_),
+                              SymEngine::outArg(denom_));
+    basic_rcp(numer) = numer_;
+    basic_rcp(denom) = denom_;
     CWRAPPER_END
 }
 
